@@ -129,7 +129,7 @@ def server():
 
     import fakesnow.server as fsrv
 
-    for name in ("uvicorn", "uvicorn.error", "uvicorn.access", "snowflake.connector", "asyncio"):
+    for name in ("uvicorn", "uvicorn.error", "uvicorn.access", "snowflake.connector", "asyncio", "sqlglot"):
         lg = logging.getLogger(name)
         lg.disabled = True
         lg.propagate = False
@@ -1096,7 +1096,7 @@ def _gt_brief(gt):
 def replay_history(hist, d):
     """Fresh server state, apply hist (unchecked: every prefix was checked when it was a frontier transition)."""
     reset_server()
-    live = Live(d)
+    live = Live(tempfile.mkdtemp(prefix="h", dir=d))  # path-backed logins of this replay get directories of their own
     model = M.SessionModel()
     for op in hist:
         model.step(op)
